@@ -387,6 +387,10 @@ def run(chk):
                f"the stored-model evaluator and the fitted-component evaluator differ: {diff[:2]}", sample={"statements_compared": len(a)})
     # ---- R01.7
     coef.check_conventions(chk, r7)
+    # ---- R01.9: the wrappers that turn stored coefficients into the evaluated curve (same function as C11/R11.4)
+    r9 = chk.rule("R01.9", "stored coefficients -> evaluated curve: get_full_model_x/fix_full_model_x keep kernel order, swap pairs together, clamp against the fit range (T_min, T_max)", 5)
+    from rules.c11 import check_kernel_wrappers
+    check_kernel_wrappers(chk, r9)
 
 
 def _attrs_read_when_called_from(chk, f: FuncInfo, P: Dict[str, FuncInfo]) -> Set[str]:
